@@ -982,8 +982,8 @@ Qed.
 (* From<Vec<T>> establishes the hypotheses of wm_exact, given the interfaces of the embedded structures *)
 Theorem wm_from_establishes sp m V wm :
   Forall (fun x => x < 2 ^ 64) V -> lenN V < 2 ^ 64 -> list_max V + 1 < 2 ^ 64 ->
-  (forall col r b, lenB col < 2 ^ 64 -> bv_from_bits col = Ok r -> bv_enable_all sp m r = Ok b -> bv_queries_ok sp m b col) ->
-  (forall F iv first, Forall (fun x => x < 2 ^ 64) F -> lenN F < 2 ^ 64 ->
+  (forall col r b, lenB col = lenN V -> bv_from_bits col = Ok r -> bv_enable_all sp m r = Ok b -> bv_queries_ok sp m b col) ->
+  (forall F iv first, Forall (fun x => x <= lenN V) F -> lenN F = list_max V + 1 ->
      iv_from 64 F = Ok iv -> iv_pack iv = Ok first -> first_ok first F) ->
   wm_from sp m V = Ok wm ->
   exists levels first F,
@@ -994,7 +994,68 @@ Proof.
   intros HV Hn Hmax HBV HIV H. apply wm_from_shape in H. destruct H as (raws & levels & F & iv & H1 & H2 & H3 & H4 & H5 & H6).
   exists levels, (wm_first wm), F. split; [exact H6|]. split; [|split; [exact H3|]].
   - eapply Forall2_compose; [exact H1|exact H2|]. intros col r b Hin Hr Hb. apply (HBV col r b); [|exact Hr|exact Hb].
-    pose proof (wm_columns_lens V HV) as HL. rewrite Forall_forall in HL. rewrite (HL col Hin). exact Hn.
-  - destruct (offsets_bounded m V F HV Hn Hmax H3) as [HF1 HF2]. apply (HIV F iv (wm_first wm)); [|lia|exact H4|exact H5].
-    rewrite Forall_forall in *. intros x Hx. specialize (HF2 x Hx). lia.
+    pose proof (wm_columns_lens V HV) as HL. rewrite Forall_forall in HL. exact (HL col Hin).
+  - destruct (offsets_bounded m V F HV Hn Hmax H3) as [HF1 HF2]. apply (HIV F iv (wm_first wm)); assumption.
+Qed.
+
+(* ---------------------------------------------------------------- construction never fails *)
+
+Lemma core_levels_total fuel width level src :
+  (forall c, In c (level_columns fuel width level src) -> exists r, bv_from_bits c = Ok r) ->
+  exists ls, core_levels fuel width level src = Ok ls.
+Proof.
+  revert level src. induction fuel as [|k IH]; intros level src H; cbn [core_levels level_columns] in *; [eauto|].
+  destruct (H _ (or_introl eq_refl)) as [r Hr]. rewrite Hr. cbn [bind].
+  destruct (IH (level + 1) _ (fun c Hc => H c (or_intror Hc))) as [rest Hrest]. rewrite Hrest. cbn [bind]. eauto.
+Qed.
+
+Lemma init_support_total sp m ls :
+  (forall r, In r ls -> exists b, bv_enable_all sp m r = Ok b) -> exists ls', init_support sp m ls = Ok ls'.
+Proof.
+  induction ls as [|r t IH]; intros H; cbn [init_support]; [eauto|].
+  destruct (H r (or_introl eq_refl)) as [b Hb]. rewrite Hb. cbn [bind].
+  destruct (IH (fun r' Hr' => H r' (or_intror Hr'))) as [t' Ht']. rewrite Ht'. cbn [bind]. eauto.
+Qed.
+
+Lemma Forall2_in_r {A B} (R : A -> B -> Prop) la lb b : Forall2 R la lb -> In b lb -> exists a, In a la /\ R a b.
+Proof.
+  intros H. induction H as [|x y la lb Hxy H IH]; intros Hb; [destruct Hb|].
+  destruct Hb as [<-|Hb]; [exists x; split; [left; reflexivity|exact Hxy]|].
+  destruct (IH Hb) as (a & Ha & HR). exists a. split; [right; exact Ha|exact HR].
+Qed.
+
+(* From<Vec<T>> returns, and what it returns meets the hypotheses of wm_exact, given that the embedded
+   structures can be built and meet their interfaces *)
+Theorem wm_from_total sp m V :
+  Forall (fun x => x < 2 ^ 64) V -> lenN V < 2 ^ 64 -> list_max V + 1 < 2 ^ 64 ->
+  (forall col, lenB col = lenN V ->
+     exists r b, bv_from_bits col = Ok r /\ bv_enable_all sp m r = Ok b /\ bv_queries_ok sp m b col) ->
+  (forall F, Forall (fun x => x <= lenN V) F -> lenN F = list_max V + 1 ->
+     exists iv first, iv_from 64 F = Ok iv /\ iv_pack iv = Ok first /\ first_ok first F) ->
+  exists levels first F,
+    wm_from sp m V = Ok (mkwm (lenN V) (mkcore levels) first) /\
+    Forall2 (bv_queries_ok sp m) levels (wm_columns V) /\
+    first_offsets m V (lenN V) (list_max V) = Ok F /\ first_ok first F.
+Proof.
+  intros HV Hn Hmax HBVe HIVe.
+  assert (HBV : forall col r b, lenB col = lenN V -> bv_from_bits col = Ok r -> bv_enable_all sp m r = Ok b -> bv_queries_ok sp m b col).
+  { intros col r b Hl Hr Hb. destruct (HBVe col Hl) as (r' & b' & H1 & H2 & H3). congruence. }
+  assert (HIV : forall F iv first, Forall (fun x => x <= lenN V) F -> lenN F = list_max V + 1 ->
+                 iv_from 64 F = Ok iv -> iv_pack iv = Ok first -> first_ok first F).
+  { intros F iv first H1 H2 H3 H4. destruct (HIVe F H1 H2) as (iv' & first' & E1 & E2 & E3). congruence. }
+  assert (Hex : exists wm, wm_from sp m V = Ok wm).
+  { destruct (first_offsets_ok m V HV Hmax) as (F & HF & HF2 & _).
+    destruct (offsets_bounded m V F HV Hn Hmax HF) as [HFl HFb].
+    destruct (HIVe F HFb HFl) as (iv & first & E1 & E2 & _).
+    pose proof (wm_columns_lens V HV) as HL. rewrite Forall_forall in HL.
+    destruct (core_levels_total (N.to_nat (bit_len (list_max V))) (bit_len (list_max V)) 0 V) as [raws Hraws].
+    { intros c Hc. destruct (HBVe c) as (r & _ & Hr & _); [fold (wm_columns V) in Hc; exact (HL c Hc)|]. eauto. }
+    destruct (init_support_total sp m raws) as [levels Hlevels].
+    { intros r Hr. apply core_levels_shape in Hraws. destruct (Forall2_in_r _ _ _ _ Hraws Hr) as (c & Hc & Hcr).
+      destruct (HBVe c) as (r' & b & H1 & H2 & _); [fold (wm_columns V) in Hc; exact (HL c Hc)|].
+      exists b. congruence. }
+    unfold wm_from, start_offsets, wm_core_from. rewrite HF. cbn [bind]. rewrite E1. cbn [bind]. rewrite E2. cbn [bind].
+    rewrite Hraws. cbn [bind]. rewrite Hlevels. cbn [bind]. eauto. }
+  destruct Hex as [wm Hwm]. destruct (wm_from_establishes sp m V wm HV Hn Hmax HBV HIV Hwm) as (levels & first & F & -> & H2 & H3 & H4).
+  exists levels, first, F. tauto.
 Qed.
